@@ -219,11 +219,12 @@ pub fn run_case(case: &Case) -> Result<(bool, Vec<&'static str>), Failure> {
             vensure!(m.name() == name, "name-mismatch", "module '{}' reports name '{}'", t.path[i], m.name());
             match (t.parent[i], m.parent()) {
                 (Some(p), Ok(pm)) => vensure!(
-                    pm.path().as_str() == t.path[p],
+                    pm.path().as_str() == t.path[p] && Some(pm.id()) == sim.get(&ObjectPath::from(t.path[p].as_str())).map(|d| d.id()),
                     "parent-mismatch",
-                    "parent of '{}' is '{}', declared '{}'",
+                    "parent of '{}' is '{}' (id {:?}), declared '{}'",
                     t.path[i],
                     pm.path(),
+                    pm.id(),
                     t.path[p]
                 ),
                 (None, Err(_)) => {}
@@ -235,7 +236,20 @@ pub fn run_case(case: &Case) -> Result<(bool, Vec<&'static str>), Failure> {
                 let is_child = t.parent[j] == Some(i);
                 if is_child {
                     match m.child(cname) {
-                        Ok(c) => vensure!(c.path().as_str() == t.path[j], "child-mismatch", "child '{cname}' of '{}' is '{}'", t.path[i], c.path()),
+                        Ok(c) => {
+                            vensure!(c.path().as_str() == t.path[j], "child-mismatch", "child '{cname}' of '{}' is '{}'", t.path[i], c.path());
+                            // the very module that was declared, not another object that merely carries its path
+                            let declared = sim.get(&ObjectPath::from(t.path[j].as_str())).map(|d| d.id());
+                            vensure!(
+                                Some(c.id()) == declared,
+                                "child-mismatch",
+                                "child '{cname}' of '{}' resolves to module id {:?}, the module declared at '{}' has id {:?}",
+                                t.path[i],
+                                c.id(),
+                                t.path[j],
+                                declared
+                            );
+                        }
                         Err(e) => vfail!("child-mismatch", "child '{cname}' of '{}' not found: {e:?}", t.path[i]),
                     }
                 }
